@@ -8,6 +8,7 @@ import (
 	"reflect"
 	"sort"
 	"strconv"
+	"strings"
 
 	"github.com/octohelm/gengo/pkg/namer"
 	gengotypes "github.com/octohelm/gengo/pkg/types"
@@ -40,9 +41,41 @@ func (d *Dumper) TypesTypeLit(tpe types.Type) string {
 	return d.TypeLit(typesutil.FromTType(tpe))
 }
 
+// unescapeTypeArgs restores the package paths inside the type arguments of an instantiated type's name as reflect reports it:
+// there a byte that may not appear in a linker symbol - in particular a dot in the last path element - is written as
+// '%' followed by two hex digits (Box[gopkg.in/yaml%2ev3.Node]).
+func unescapeTypeArgs(name string) string {
+	if !strings.Contains(name, "%") {
+		return name
+	}
+	unhex := func(c byte) (byte, bool) {
+		switch {
+		case '0' <= c && c <= '9':
+			return c - '0', true
+		case 'a' <= c && c <= 'f':
+			return c - 'a' + 10, true
+		}
+		return 0, false
+	}
+	b := make([]byte, 0, len(name))
+	for i := 0; i < len(name); i++ {
+		if name[i] == '%' && i+2 < len(name) {
+			hi, ok1 := unhex(name[i+1])
+			lo, ok2 := unhex(name[i+2])
+			if ok1 && ok2 {
+				b = append(b, hi<<4|lo)
+				i += 2
+				continue
+			}
+		}
+		b = append(b, name[i])
+	}
+	return string(b)
+}
+
 func (d *Dumper) TypeLit(tpe typesutil.Type) string {
 	if tpe.PkgPath() != "" {
-		return d.Name(gengotypes.Ref(tpe.PkgPath(), tpe.Name()))
+		return d.Name(gengotypes.Ref(tpe.PkgPath(), unescapeTypeArgs(tpe.Name())))
 	}
 
 	switch tpe.Kind() {
